@@ -39,7 +39,7 @@ def check(ctx):
     # ---- D1: weekday congruence, both variants of the kernel
     for mf, shift in ((0, 1), (1, 0)):
         lab = f'{WD} [monday_first={bool(mf)}]'
-        N.run(WD, label=lab, overrides={'monday_first': lambda I, st, ty, mf=mf: const_int(mf, 'bool')})
+        N.run(WD, label=lab, overrides={'monday_first@2': lambda I, st, ty, mf=mf: const_int(mf, 'bool')})
         n = ok = 0
         for args, st0, outs in N.results.get(lab, []):
             days = args[0][1]
